@@ -3,6 +3,7 @@ package rules
 import (
 	"go/types"
 	"morlockverif/checker/internal/core"
+	"sort"
 	"strings"
 
 	"golang.org/x/tools/go/ssa"
@@ -69,9 +70,27 @@ func sigMatches(fn *ssa.Function, rs roleSig) bool {
 	if len(have) != len(want) || sig.Results().Len() != len(rs.results) {
 		return false
 	}
+	exact := true
 	for i := range want {
 		if have[i] != want[i] && !(i == 0 && rs.recv == "?") {
+			exact = false
+		}
+	}
+	if !exact {
+		// a method turned into a function may take its former receiver at any position
+		if sig.Recv() != nil || rs.recv == "" || rs.recv == "?" {
 			return false
+		}
+		a, b := append([]string(nil), have...), append([]string(nil), want...)
+		for i := range a {
+			a[i] = strings.TrimPrefix(a[i], "*")
+		}
+		sort.Strings(a)
+		sort.Strings(b)
+		for i := range a {
+			if a[i] != b[i] {
+				return false
+			}
 		}
 	}
 	for i, p := range rs.results {
@@ -218,8 +237,12 @@ func (c *Ctx) find(rel, recv, name string) *ssa.Function {
 	}
 	// a method turned into a function taking the former receiver first (or the reverse), same name
 	if recv != "" {
-		if f := sp.Func(name); f != nil && len(f.Params) > 0 && namedTypeName(f.Params[0].Type()) == recv {
-			return f
+		if f := sp.Func(name); f != nil {
+			for _, prm := range f.Params {
+				if namedTypeName(prm.Type()) == recv {
+					return f
+				}
+			}
 		}
 	} else {
 		for _, fn := range c.P.AllFuncs {
